@@ -166,7 +166,7 @@ impl Model {
                     has_vftable_block: true,
                 } = kind
                 {
-                    generated.insert(join(mpath, &format!("{}Vftable", d.name.as_str())));
+                    generated.insert(join(mpath, &crate::inventory::vftable_name(d.name.as_str())));
                 }
                 let decl = Decl {
                     module: mi,
